@@ -230,6 +230,7 @@ def base_plan(tier, seed, classes=('pess', 'opt', 'mcs'), opt_scripts=True, thre
             if pr:
                 plan.append((cls, pr, par))
         plan.append((cls, programs.crowd(cls), dict(pb=1 if q else 2, max_exec=400 if q else 6000)))
+        plan.append((cls, programs.twolock_follow(cls), dict(pb=1 if q else 2, max_exec=200 if q else 4000)))
         # seeded random schedules (any number of preemptions) of the 3-thread products complement the bounded search
         if three:
             plan.append((cls, programs.cross3(cls, CONV + ('X',), MODES3, MODES3, tag='r3'), dict(mode='random', max_exec=12 if q else 300)))
@@ -508,7 +509,9 @@ def check_c12(prop, tier, seed):
             ('mcs', programs.cross3('mcs', MODES3, MODES3, MODES3), dict(pb=2, max_exec=1500 if q else 30000)),
             ('mcs', programs.cross3('mcs', CONV, MODES3, MODES3), dict(pb=1 if q else 2, max_exec=600 if q else 20000)),
             ('mcs', programs.twosec('mcs') + programs.twolocks('mcs') + programs.handover('mcs') + programs.guards('mcs'),
-             dict(pb=2, max_exec=2500 if q else 30000))]
+             dict(pb=2, max_exec=2500 if q else 30000)),
+            ('mcs', programs.twolock_follow('mcs'), dict(pb=1 if q else 2, max_exec=200 if q else 4000)),
+            ('mcs', programs.crowd('mcs'), dict(pb=1 if q else 2, max_exec=400 if q else 6000))]
     if not q:
         plan.append(('mcs', programs.random_programs('mcs', 40, seed), dict(pb=2, max_exec=4000)))
 
